@@ -5,6 +5,7 @@ import (
 	"go/ast"
 	"go/token"
 	"go/types"
+	"os"
 	"sort"
 	"strings"
 
@@ -117,6 +118,142 @@ func runC01(r *Run) {
 	detLocalTime(r, sc, S)
 	r.Rule("R12", "OWN.shared-memory-through-aliases: (a) in consensus scope the receiver of a mutating math/big.Int / uint256.Int method never aliases a pointer held by a package-level variable of any package (common.Big1 and the like) — followed through phis, locals, big.Int's receiver-returning methods, functions that return a parameter, and math.BigMax/BigMin; (b) every package-level slice of a Haqq package that is used as the first argument of append has an initialiser with len == cap (composite literal, constant conversion, make(n, n)) — with spare capacity the append writes the one backing array that block execution and concurrent queries share")
 	detSharedAliasWrites(r, sc, S, "R12")
+	r.Rule("R14", "FLOW.node-configured-tracer-only-where-its-reads-are-free: a nil tracer handed to ApplyMessageWithConfig means 'the logger this node configured in app.toml (evm.tracer)'. The struct logger reads the storage slot of every SLOAD itself — a KV read the EVM does not make. On the Ethereum route that costs nothing (EthSetupContextDecorator installs an empty KV gas config); inside a Cosmos transaction it is charged to the transaction's gas meter on that node only, so GasUsed, and with a tight limit the outcome and the app hash, differ between nodes. In consensus scope a possibly-nil tracer therefore reaches ApplyMessageWithConfig only in ApplyTransaction, or over the failing edge of a test `fromType == <const>` in a function that every consensus-scope caller calls with that very constant")
+	{
+		nT := 0
+		// premise: the eth route charges no KV gas
+		if su, ok := P.FnOK("(app/ante/evm.EthSetupContextDecorator).AnteHandle"); ok {
+			free := len(findCalls(su, func(ci CallInfo) bool { return ci.Name == "WithKVGasConfig" })) > 0
+			r.Check(free, "R14", fnID(su)+"#eth-route-kv-reads-are-free", P.Pos(fnPos(su)), "installs an empty KV gas config", "EthSetupContextDecorator no longer installs an empty KV gas config: the configured tracer's state reads are charged on the Ethereum route as well")
+		} else {
+			r.Bad("R14", "anchor/EthSetupContextDecorator.AnteHandle", "", "not found")
+		}
+		for _, fn := range S {
+			idx := 0
+			eachCall(fn, func(ci CallInfo) {
+				if ci.Name != "ApplyMessageWithConfig" {
+					return
+				}
+				var tr ssa.Value
+				for _, a := range ci.Instr.Common().Args {
+					if namedName(a.Type()) == "EVMLogger" {
+						tr = a
+					}
+				}
+				if tr == nil {
+					return
+				}
+				nT++
+				idx++
+				inst := fmt.Sprintf("%s#tracer-%d", fnID(outermost(fn)), idx)
+				where := P.Pos(instrPos(ci.Instr))
+				if c, ok := tr.(*ssa.Const); ok && c.IsNil() {
+					r.Check(fnID(outermost(fn)) == "(*x/evm/keeper.Keeper).ApplyTransaction", "R14", inst, where, "nil tracer on the Ethereum route only", "a nil (node-configured) tracer is handed to ApplyMessageWithConfig in a consensus-scope function other than ApplyTransaction: on a node with evm.tracer = \"struct\" the logger's own storage reads are charged to the transaction's gas meter — GasUsed and, with a tight gas limit, the result differ from the other nodes", sc.S.Chain(fn)...)
+					return
+				}
+				ph, isPhi := tr.(*ssa.Phi)
+				if !isPhi {
+					r.OK("R14", inst, where, "an explicit tracer value")
+					return
+				}
+				okNil, want := true, ""
+				var par *ssa.Parameter
+				for i, e := range ph.Edges {
+					c, isC := e.(*ssa.Const)
+					if !isC || !c.IsNil() {
+						continue
+					}
+					pred := ph.Block().Preds[i]
+					iff, isIf := lastIf(pred)
+					bo, _ := func() (*ssa.BinOp, bool) {
+						if !isIf {
+							return nil, false
+						}
+						b, ok := iff.Cond.(*ssa.BinOp)
+						return b, ok
+					}()
+					if bo == nil || bo.Op != token.EQL || len(pred.Succs) != 2 || pred.Succs[1] != ph.Block() {
+						okNil = false
+						continue
+					}
+					// the tested value is a parameter (of this function, or of the enclosing one when the call sits in a closure)
+					var p1 *ssa.Parameter
+					switch x := bo.X.(type) {
+					case *ssa.Parameter:
+						p1 = x
+					case *ssa.UnOp:
+						if fv, ok := x.X.(*ssa.FreeVar); ok {
+							if al, ok := freeVarBinding(fv).(*ssa.Alloc); ok {
+								for _, w := range allocWriters(al) {
+									if pp, ok := w.(*ssa.Parameter); ok {
+										p1 = pp
+									} else {
+										p1 = nil
+										break
+									}
+								}
+							}
+						}
+					}
+					k1, isK := bo.Y.(*ssa.Const)
+					if p1 == nil || !isK || k1.Value == nil {
+						okNil = false
+						continue
+					}
+					par, want = p1, k1.Value.ExactString()
+				}
+				// every consensus-scope caller passes that constant
+				if okNil && par != nil {
+					pi := -1
+					host := par.Parent()
+					for i, p := range host.Params {
+						if p == par {
+							pi = i
+						}
+					}
+					nCallers := 0
+					for _, g := range S {
+						if g.Synthetic != "" {
+							continue // pointer-receiver wrappers forward their own parameter
+						}
+						eachCall(g, func(cj CallInfo) {
+							if cj.Name != host.Name() {
+								return
+							}
+							args := cj.Instr.Common().Args
+							off := 0
+							if cj.Invoke {
+								off = 1 // Params[0] is the receiver, not among an invoke's Args
+							}
+							if pi-off < 0 || pi-off >= len(args) {
+								okNil = false
+								return
+							}
+							nCallers++
+							if os.Getenv("HAQQCHECK_DEBUG") != "" {
+								fmt.Fprintf(os.Stderr, "R14 caller %s arg=%v want=%s\n", fnID(g), args[pi-off], want)
+							}
+							k, isK := args[pi-off].(*ssa.Const)
+							if !isK || k.Value == nil || k.Value.ExactString() != want {
+								okNil = false
+							}
+						})
+					}
+					if nCallers == 0 {
+						okNil = false
+					}
+				}
+				r.Check(okNil, "R14", inst, where, "nil only behind `"+func() string {
+					if par != nil {
+						return par.Name() + " == " + want
+					}
+					return "?"
+				}()+"` failing, and every consensus-scope caller passes that constant",
+					"the tracer handed to ApplyMessageWithConfig can be nil (the node-configured logger) on a path that consensus-scope callers take: on a node with evm.tracer = \"struct\" the logger's storage reads are charged to the Cosmos transaction's gas meter (1255 gas per out-of-gas SLOAD in the estimator's failing trial runs) — that node reports another GasUsed and, with a tight limit, fails a transaction its peers execute", sc.S.Chain(fn)...)
+			})
+		}
+		r.Floor("R14", "ApplyMessageWithConfig call sites in consensus scope", nT, 2)
+	}
 	r.Rule("R13", "PATH.optional-recipient-dereferenced-under-guard: the tabled observer sites of R8 (the node-local evm.tracer selects the logger handed to the interpreter) are 'observers' only as long as they cannot fail: a panic in one of them is recovered per transaction by BaseApp, so only the node with that setting reports the transaction as failed. In consensus scope the result of a message's To() — nil for a contract creation — is dereferenced only over the non-nil edge of a comparison of To() with nil (the access-list tracer was built with *msg.To() unconditionally: every contract creation failed on nodes configured with it)")
 	{
 		nD := 0
